@@ -419,3 +419,131 @@ def magnitude_cases(mags, positions=None):
             out.append({"family": pos, "param": m, "group": "magnitude", "pos": pos,
                         "files": {"main.asm": "#d8 1, 2, 3, 4\n"}, "args": gen(m)})
     return out
+
+
+# ----------------------------------------------------------------------------- alternating (mixed) nesting
+# A nesting construct = (name, context it appears in, context of its inside, text before, text after, which counter
+# of the assembler sees it).  Contexts: "L" = a sequence of lines, "E" = an expression.
+MIX = {
+    # name:      (ctx_in, ctx_out, open, close, counter)
+    "if":        ("L", "L", "#if true\n{\n", "}\n", "block"),
+    "else":      ("L", "L", "#if false\n{\n}\n#else\n{\n", "}\n", "block"),
+    "const":     ("L", "E", "x = ", "\n", None),              # a constant's expression: a NEW expression parser
+    "data":      ("L", "E", "#d8 ", "\n", None),
+    "ifcond":    ("L", "E", "#if ", "\n{\n}\n", None),        # the CONDITION of an #if
+    "assert":    ("L", "E", "#assert ", "\n", None),
+    "res":       ("L", "E", "#res ", "\n", None),
+    "paren":     ("E", "E", "(", ")", "expr"),
+    "brace":     ("E", "E", "{", "}", "expr"),
+    "call":      ("E", "E", "f(", ")", "expr"),
+    "neg":       ("E", "E", "-", "", "expr"),
+    "tern":      ("E", "E", "true ? ", " : 0", "expr"),
+    "slice":     ("E", "E", "1[", ":0]", "expr"),
+    "asm":       ("E", "L", "asm {\n", "}", None),            # uncounted on its own (F57); inherits the block counter
+}
+MIX_LL = ["if", "else"]
+MIX_LE = ["const", "data", "ifcond", "assert", "res"]
+MIX_EE = ["paren", "brace", "call", "neg", "tern", "slice"]
+
+
+def mixed_cycles():
+    """every pair of nesting constructs as a cycle of constructs whose contexts chain (connectors `const` (L->E) and
+    `asm` (E->L) are inserted where the two constructs live in different contexts)"""
+    cyc = []
+    for i, a in enumerate(MIX_LL):
+        for b in MIX_LL[i:]:
+            cyc.append([a, b] if a != b else [a])
+    for i, a in enumerate(MIX_EE):
+        for b in MIX_EE[i + 1:]:
+            if "neg" in (a, b) and ("tern" in (a, b) or "slice" in (a, b)):
+                continue       # `-c ? x : y` is (-c) ? x : y and `-1[..]` is (-1)[..]: the unary does not enclose them
+            cyc.append([a, b])
+    for a in MIX_LL:
+        for b in MIX_EE:
+            cyc.append([a, "const", b, "asm"])
+        for c in MIX_LE:
+            cyc.append([a, c, "asm"])                      # #if block  x  asm block (through every carrier)
+    for c in MIX_LE:
+        cyc.append([c, "asm"])                             # asm blocks only, through every carrier (F57 class)
+        for b in MIX_EE:
+            cyc.append([c, b, "asm"])
+    for i, c in enumerate(MIX_LE):
+        for c2 in MIX_LE[i + 1:]:
+            cyc.append([c, "asm", c2, "asm"])
+    return cyc
+
+
+def mixed_program(cycle, rounds):
+    seq = list(cycle) * rounds
+    pre, post = [], []
+    if MIX[seq[0]][0] == "E":
+        pre.append("x = "); post.append("\n")
+    for name in seq:
+        pre.append(MIX[name][2]); post.append(MIX[name][3])
+    inner = "1" if MIX[seq[-1]][1] == "E" else "#d8 1\n"
+    return "#fn f(x) => x\n" + "".join(pre) + inner + "".join(reversed(post))
+
+
+def mixed_counts(cycle, rounds):
+    """(nested #if-type blocks, deepest nesting seen by ONE expression parser, passes through an uncounted asm edge)"""
+    blocks = rounds * sum(1 for n in cycle if MIX[n][4] == "block")
+    has_asm = "asm" in cycle
+    per_round = sum(1 for n in cycle if MIX[n][4] == "expr")
+    exprs = per_round if has_asm else per_round * rounds
+    return blocks, exprs, has_asm
+
+
+def mixed_cases(limit, far):
+    out = []
+    for cyc in mixed_cycles():
+        nb = sum(1 for n in cyc if MIX[n][4] == "block")
+        ne = sum(1 for n in cyc if MIX[n][4] == "expr") if "asm" not in cyc else 0
+        k = nb or ne or 1
+        rs = set(far)
+        for c in (limit - 1, limit, limit + 1, limit + 10):     # counted depth around the limit
+            rs.add(max(1, c // k)); rs.add(max(1, -(-c // k)))
+        for r in sorted(rs):
+            out.append({"family": "mix:" + "+".join(cyc), "param": r, "group": "mixed", "cycle": cyc,
+                        "files": {"main.asm": mixed_program(cyc, r)}, "args": []})
+    return out
+
+
+# evaluation-time alternation: rule -> function -> asm block -> rule ...   (n rounds, then a terminal rule)
+def eval_mixed(n):
+    s = "#ruledef\n{\n"
+    for k in range(n):
+        s += "    j%d => g%d()\n" % (k, k)
+    s += "    j%d => 0x11\n}\n" % n
+    for k in range(n):
+        s += "#fn g%d() => asm { j%d }\n" % (k, k + 1)
+    return s + "j0\n"
+
+
+# ----------------------------------------------------------------------------- #bankdef field combinations
+def bank_combo_program(sized, far_outp, place, fill, m):
+    """bank with/without a declared size x outp 0 / m x placement none / #addr m / #res m / #align m x #fill;
+    two data bytes, the second one after the placement directive, and a label"""
+    s = "#bankdef a\n{\n    #addr 0\n"
+    if sized:
+        s += "    #size %d\n" % (m + 16)
+    s += "    #outp %d\n" % (m if far_outp else 0)
+    if fill:
+        s += "    #fill\n"
+    s += "}\n#d8 1\n"
+    s += {0: "", 1: "#addr %d\n" % m, 2: "#res %d\n" % m, 3: "#align %d\n" % m}[place]
+    return s + "#d8 2\nx:\n"
+
+
+def bank_combo_cases(mags):
+    out = []
+    for sized in (0, 1):
+        for far_outp in (0, 1):
+            for place in (0, 1, 2, 3):
+                for fill in (0, 1):
+                    if not far_outp and place == 0:
+                        continue           # nothing depends on m except the size
+                    name = "bankcombo_%d%d%d%d" % (sized, far_outp, place, fill)
+                    for m in mags:
+                        out.append({"family": name, "param": m, "group": "magnitude", "pos": name,
+                                    "files": {"main.asm": bank_combo_program(sized, far_outp, place, fill, m)}, "args": []})
+    return out
